@@ -40,7 +40,7 @@ def _mi_frame(B):
         g = Opaque("groupby")
         g.length = groups[kw.get("level")]
         return g
-    o.opaque_methods = {"groupby": groupby}
+    o.opaque_methods = {"groupby": groupby, "to_numpy": lambda I, recv, a, kw: vals}
     idx = Opaque("multiindex")
     idx.attrs = {"nlevels": B.int("nlevels", 1)}
     o.attrs = {"shape": SList([ops.simp(Z(n) * Z(t)), c], "tuple"), "values": vals, "index": idx}
